@@ -56,6 +56,33 @@ def doc_rich():
                     "responses": ok,
                 }
             },
+            # every string format the product has a strategy of its own for, and generated credentials
+            "/f/{uid}": {
+                "post": {
+                    "operationId": "postF",
+                    "security": [{"Bearer": []}, {"Basic": []}],
+                    "parameters": [
+                        {"name": "uid", "in": "path", "required": True, "schema": {"type": "string", "format": "uuid"}},
+                        {"name": "blob", "in": "query", "required": True, "schema": {"type": "string", "format": "byte"}},
+                        {"name": "at", "in": "query", "required": True, "schema": {"type": "string", "format": "date-time"}},
+                        {"name": "ip", "in": "query", "schema": {"type": "string", "format": "ipv4"}},
+                        {"name": "X-Id", "in": "header", "required": True, "schema": {"type": "string", "format": "uuid"}},
+                    ],
+                    "requestBody": {
+                        "required": True,
+                        "content": {
+                            "application/json": {
+                                "schema": {
+                                    "type": "object",
+                                    "required": ["id", "data"],
+                                    "properties": {"id": {"type": "string", "format": "uuid"}, "data": {"type": "string", "format": "byte"}, "ids": {"type": "array", "items": {"type": "string", "format": "uuid"}}},
+                                }
+                            }
+                        },
+                    },
+                    "responses": copy.deepcopy(docs.OK),
+                }
+            },
             "/q": {
                 "post": {
                     "operationId": "postQ",
@@ -79,7 +106,8 @@ def doc_rich():
                     "responses": copy.deepcopy(docs.OK),
                 }
             },
-        }
+        },
+        components={"securitySchemes": {"Bearer": {"type": "http", "scheme": "bearer"}, "Basic": {"type": "http", "scheme": "basic"}}},
     )
 
 
